@@ -46,8 +46,8 @@ from gen_netlist import fs, rv, sv
 
 warnings.filterwarnings('ignore')
 
-BRANCH_TYPES = ('L', 'V', 'E', 'H', 'TF')
-HELPERS = ['Lcapy/Proofs/TimeDomain.lean', 'Lcapy/Spec/LawsT.lean', 'Lcapy/Model/TimeDomain.lean', 'Lcapy/Driver/C02.lean',
+BRANCH_TYPES = ('L', 'V', 'E', 'H', 'TF', 'GY', 'TR', 'AM')
+HELPERS = ['Lcapy/Proofs/TimeDomain.lean', 'Lcapy/Proofs/TimeDomainInj.lean', 'Lcapy/Proofs/TimeDomainInjReal.lean', 'Lcapy/Spec/LawsT.lean', 'Lcapy/Model/TimeDomain.lean', 'Lcapy/Driver/C02.lean',
            'Lcapy/Spec/Laws.lean', 'Lcapy/Spec/Signal.lean', 'Lcapy/Model/ExpPoly.lean', 'Lcapy/Model/ILT.lean',
            'Lcapy/Proofs/Laplace.lean', 'Lcapy/Proofs/LaplaceILT.lean', 'Lcapy/Model/Netlist.lean', 'Lcapy/Model/MNA.lean']
 
@@ -243,11 +243,29 @@ def waveform(rng, kinds, rates, force=None):
     if kind == 'cosu':
         its = ['ep %s 0 %s 0' % (fstr(h), gq((Fraction(0), w))), 'ep %s 0 %s 0' % (fstr(h), gq((Fraction(0), -w)))]
         return {'kind': kind, 'args': '{%s*cos(%s*t)*u(t)}' % (rat(A), rat(w)), 'items': its, 'causal': True}
+    if kind == 'sinu':
+        # A sin(wt) u(t) = A/(2j) e^{jwt} - A/(2j) e^{-jwt}
+        its = ['ep %s 0 %s 0' % (gq((Fraction(0), -h)), gq((Fraction(0), w))), 'ep %s 0 %s 0' % (gq((Fraction(0), h)), gq((Fraction(0), -w)))]
+        return {'kind': kind, 'args': '{%s*sin(%s*t)*u(t)}' % (rat(A), rat(w)), 'items': its, 'causal': True}
+    if kind == 'dsind':
+        # delayed damped sine  A e^{-a(t-d)} sin(w(t-d)) u(t-d)
+        its = ['ep %s 0 %s %s' % (gq((Fraction(0), -h)), gq((-a, w)), fstr(d)), 'ep %s 0 %s %s' % (gq((Fraction(0), h)), gq((-a, -w)), fstr(d))]
+        return {'kind': kind, 'args': '{%s*exp(-%s*(t-%s))*sin(%s*(t-%s))*u(t-%s)}' % (rat(A), rat(a), rat(d), rat(w), rat(d), rat(d)),
+                'items': its, 'causal': True}
+    if kind in ('sinw', 'cosw'):
+        # whole-axis sinusoid written as an expression (phasor analysis before t = 0)
+        its = []
+        for sgn in (1, -1):
+            cf = (Fraction(0), -sgn * h) if kind == 'sinw' else (h, Fraction(0))
+            its.append('pre %s 0 %s' % (gq(cf), gq((Fraction(0), sgn * w))))
+            its.append('ep %s 0 %s 0' % (gq(cf), gq((Fraction(0), sgn * w))))
+        return {'kind': kind, 'args': '{%s*%s(%s*t)}' % (rat(A), 'sin' if kind == 'sinw' else 'cos', rat(w)), 'items': its, 'causal': False}
     raise ValueError(kind)
 
 
-CAUSAL_KINDS = ['step', 'step', 'exp', 'exp', 'texp', 'ramp', 'dstep', 'dexp', 'delta', 'ddelta', 'dsin', 'cosu']
-WHOLE_KINDS = ['dc', 'dc', 'ac', 'step']
+CAUSAL_KINDS = ['step', 'step', 'exp', 'exp', 'texp', 'ramp', 'dstep', 'dexp', 'delta', 'ddelta', 'dsin', 'cosu', 'sinu']
+WHOLE_KINDS = ['dc', 'dc', 'ac', 'step', 'sinw']
+SWEEP_KINDS = ['step', 'exp', 'texp', 'ramp', 'dstep', 'dexp', 'delta', 'ddelta', 'dsin', 'dcos', 'cosu', 'sinu', 'dsind', 'dc', 'ac', 'sinw', 'cosw']
 
 
 # --------------------------------------------------------------------------- netlist generators
@@ -565,7 +583,8 @@ class RandGen(gen_netlist.Gen):
 
 
 RAND_KINDS = [['R', 'C', 'V', 'I'], ['R', 'L', 'V', 'I'], ['R', 'C', 'L', 'V', 'I', 'E', 'G'], ['R', 'L', 'C', 'V', 'F', 'H', 'I'],
-              ['R', 'C', 'V', 'TF', 'E'], ['R', 'C', 'L', 'V', 'I', 'E', 'G', 'F', 'H', 'TF']]
+              ['R', 'C', 'V', 'TF', 'E'], ['R', 'C', 'L', 'V', 'I', 'E', 'G', 'F', 'H', 'TF'],
+              ['R', 'C', 'V', 'GY', 'I'], ['R', 'L', 'C', 'V', 'TR', 'AM'], ['R', 'C', 'L', 'V', 'I', 'GY', 'TR', 'AM', 'E']]
 
 
 def gen_random(rng, ic, kinds, maxreact):
@@ -588,14 +607,189 @@ def gen_random(rng, ic, kinds, maxreact):
     return None
 
 
-def gen_switched(rng):
+def gen_directed(rng, ic, kinds, shape=None):
+    """circuits in which a gyrator / voltage transformer (TR) / ammeter (AM) certainly appears between reactive parts:
+      gyrator-C   : V - R - GY - C      (a gyrator loaded by a capacitor is an inductor: first-order response, pole -r^2... chosen)
+      gyrator-RLC : V - R - L - GY - C  (second order; chosen natural frequencies)
+      tr-am       : V - R - C, TR (gain a) driving R + AM + L (the ammeter carries the inductor current)
+      am-series   : series RLC with an ammeter in the loop"""
+    shape = shape or rng.choice(['gyrator-C', 'gyrator-RLC', 'tr-am', 'am-series'])
+    sym_was, B.symbolic = B.symbolic, False
+    try:
+        b = B(rng, ic, kinds)
+        if shape == 'gyrator-C':
+            r = rv(rng)
+            g = rng.choice([Fraction(1), Fraction(2), Fraction(1, 2), Fraction(3)])
+            pole = -Fraction(rng.randint(1, 4), rng.choice([1, 2]))
+            # seen from the input port the loaded gyrator is L = g^2 C ; pole = -r / L
+            c = r / (-pole) / (g * g)
+            b.src('V', ['1', '0'])
+            b.add('R', ['1', '2'], r)
+            b.add('GY', ['3', '0', '2', '0'] if rng.random() < 0.5 else ['0', '3', '0', '2'], g)
+            b.react('C', ['3', '0'] if rng.random() < 0.6 else ['0', '3'], c)
+            return b.case('directed-GY:C', 'real')
+        if shape == 'gyrator-RLC':
+            pk = pick_poles(rng)
+            sm, pr = sum_prod(pk)
+            if sm == 0:
+                pk = ('real', Fraction(-1), Fraction(-3))
+                sm, pr = sum_prod(pk)
+            g = rng.choice([Fraction(1), Fraction(2), Fraction(1, 2)])
+            l = rng.choice([Fraction(1), Fraction(1, 2), Fraction(2)])
+            # series R - L - (gyrator loaded by C2 = an inductor g^2 C2) ... keep it second order: series R, C1 and the
+            # simulated inductor Lg = g^2 C2 :  s^2 + (R/Lg) s + 1/(Lg C1)
+            lg = l
+            c2 = lg / (g * g)
+            r = -sm * lg
+            c1 = 1 / (lg * pr)
+            b.src('V', ['1', '0'])
+            b.add('R', ['1', '2'], r)
+            b.react('C', ['2', '3'], c1)
+            b.add('GY', ['4', '0', '3', '0'], g)
+            b.react('C', ['4', '0'], c2)
+            return b.case('directed-GY:RCC-' + pk[0], pk[0])
+        if shape == 'tr-am':
+            p1 = -Fraction(rng.randint(1, 4), rng.choice([1, 2]))
+            p2 = -Fraction(rng.randint(1, 5), rng.choice([1, 2]))
+            r1, r2 = rv(rng), rv(rng)
+            b.src('V', ['1', '0'])
+            b.add('R', ['1', '2'], r1)
+            b.react('C', ['2', '0'], 1 / (r1 * -p1))
+            b.add('TR', ['2', '3'], sv(rng))
+            b.add('R', ['3', '4'], r2)
+            b.add('AM', ['4', '5'] if rng.random() < 0.5 else ['5', '4'])
+            b.react('L', ['5', '0'], r2 / -p2)
+            return b.case('directed-TR-AM:' + ('repeated' if p1 == p2 else 'real'), 'repeated' if p1 == p2 else 'real')
+        pk = pick_poles(rng)
+        sm, pr = sum_prod(pk)
+        if sm == 0:
+            pk = ('real', Fraction(-1), Fraction(-2))
+            sm, pr = sum_prod(pk)
+        l = rng.choice([Fraction(1), Fraction(1, 2), Fraction(2)])
+        b.src('V', ['1', '0'])
+        b.add('R', ['1', '2'], -sm * l)
+        b.add('AM', ['2', '3'] if rng.random() < 0.5 else ['3', '2'])
+        b.react('L', ['3', '4'], l)
+        b.react('C', ['4', '0'], 1 / (l * pr))
+        return b.case('directed-AM:series-' + pk[0], pk[0])
+    finally:
+        B.symbolic = sym_was
+
+
+def gen_impulsive(rng, ic, shape=None):
+    """circuits whose response contains an impulse: a capacitor loop / an inductor cut-set driven by a step (or started
+    from inconsistent initial conditions):
+      cap-across-source : V(step) directly across C (i_C = C A delta), R in parallel
+      cap-divider       : V(step) - C1 - C2 (|| R): the capacitor voltages jump, the current has an impulse, then decays
+      cap-loop-ic       : C1 || C2 through an ideal wire with different initial voltages and a bleeder R (initial-value problem)
+      ind-cutset        : I(step) - L1 in series, L2 || R to ground: the inductor currents jump, v has an impulse
+      ind-series-source : I(step) through L (v_L = L A delta) with R in series"""
+    shape = shape or rng.choice(['cap-across-source', 'cap-divider', 'cap-loop-ic', 'ind-cutset', 'ind-series-source'])
+    sym_was, B.symbolic = B.symbolic, False
+    try:
+        kinds = ['step']
+        if shape == 'cap-loop-ic':
+            ic = True
+        b = B(rng, ic, kinds)
+        if shape == 'cap-across-source':
+            b.src('V', ['1', '0'] if rng.random() < 0.6 else ['0', '1'])
+            b.react('C', ['1', '0'] if rng.random() < 0.6 else ['0', '1'], rv(rng))
+            b.add('R', ['1', '2'], rv(rng))
+            b.react('C', ['2', '0'], rv(rng))
+        elif shape == 'cap-divider':
+            pole = -Fraction(rng.randint(1, 4), rng.choice([1, 2]))
+            c1, c2 = rv(rng), rv(rng)
+            b.src('V', ['1', '0'])
+            b.react('C', ['1', '2'] if rng.random() < 0.6 else ['2', '1'], c1)
+            b.react('C', ['2', '0'] if rng.random() < 0.6 else ['0', '2'], c2)
+            b.add('R', ['2', '0'], 1 / ((c1 + c2) * -pole))
+        elif shape == 'cap-loop-ic':
+            pole = -Fraction(rng.randint(1, 4), rng.choice([1, 2]))
+            c1, c2 = rv(rng), rv(rng)
+            b.add('C', ['1', '0'], c1, sv(rng))
+            b.add('C', ['1', '0'] if rng.random() < 0.5 else ['0', '1'], c2, sv(rng))
+            b.has_ic = True
+            b.add('R', ['1', '0'], 1 / ((c1 + c2) * -pole))
+        elif shape == 'ind-cutset':
+            pole = -Fraction(rng.randint(1, 4), rng.choice([1, 2]))
+            l1, l2 = rv(rng), rv(rng)
+            b.src('I', ['0', '1'] if rng.random() < 0.6 else ['1', '0'])
+            b.react('L', ['1', '2'] if rng.random() < 0.6 else ['2', '1'], l1)
+            b.react('L', ['2', '0'] if rng.random() < 0.6 else ['0', '2'], l2)
+            b.add('R', ['2', '0'], l2 * -pole)
+        else:
+            b.src('I', ['0', '1'] if rng.random() < 0.6 else ['1', '0'])
+            b.react('L', ['1', '2'], rv(rng))
+            b.add('R', ['2', '0'], rv(rng))
+        return b.case('impulsive:' + shape, 'real')
+    finally:
+        B.symbolic = sym_was
+
+
+def gen_sweep(rng, kind, k):
+    """one source waveform kind on a first-order RC / RL or a series RLC with Gaussian-rational natural frequencies"""
+    sym_was, B.symbolic = B.symbolic, False
+    try:
+        whole = kind in ('dc', 'ac', 'sinw', 'cosw')
+        if k % 3 == 2:
+            c = gen_series_rlc(rng, False, [kind])
+        else:
+            pole = -Fraction(rng.randint(1, 4), rng.choice([1, 2]))
+            b = B(rng, False, [kind], [-pole])
+            b.src('V', ['1', '0'] if rng.random() < 0.7 else ['0', '1'])
+            first_order_section(b, rng, '1', '2', pole)
+            c = b.case('sweep-first-order', 'real')
+        c['template'] = 'sweep:' + kind
+        c['whole_axis'] = whole
+        return c
+    finally:
+        B.symbolic = sym_was
+
+
+def gen_switched(rng, shape=None):
     """dc-driven circuit with one switch operated at t = 0; the state at 0- is the dc steady state of the pre-switch circuit"""
     A = sv(rng)
     r1, r2, r3 = rv(rng), rv(rng), rv(rng)
     sw_type = rng.choice(['no', 'nc'])
-    shape = rng.choice(['series-switch', 'series-switch', 'short-across', 'two-caps', 'rlc'])
+    shape = shape or rng.choice(['series-switch', 'series-switch', 'short-across', 'two-caps', 'rlc', 'spdt', 'coupled'])
     lines = ['V1 1 0 dc %s' % fs(A), 'R1 1 2 %s' % fs(r1)]
-    if shape == 'series-switch':
+    if shape == 'spdt':
+        # the reactive element is moved by a change-over switch from the charging path to a discharge path
+        re = rng.choice(['C', 'L'])
+        sw_type = 'spdt'
+        if re == 'C':
+            lines += ['SW1 3 2 4 spdt 0', 'C1 3 0 %s' % fs(rv(rng)), 'R2 4 0 %s' % fs(r2)]
+            if rng.random() < 0.5:
+                lines.append('R3 2 0 %s' % fs(r3))
+        else:
+            lines += ['L1 2 3 %s' % fs(rv(rng)), 'SW1 3 0 4 spdt 0', 'R2 4 0 %s' % fs(r2)]
+    elif shape == 'coupled':
+        # coupled inductors: L1 carries the dc current, L2 sits in its own resistive loop; the switch changes the
+        # resistance in series with L1 (natural frequencies of the post-switch circuit rational)
+        got = None
+        for _ in range(300):
+            l1 = rng.choice([Fraction(1), Fraction(4), Fraction(9), Fraction(1, 4), Fraction(4, 9)])
+            l2 = l1 if rng.random() < 0.5 else rng.choice([Fraction(1), Fraction(4), Fraction(9), Fraction(1, 4)])
+            k = Fraction(rng.randint(1, 9), 10)
+            rp, rs = rv(rng, 1, 6, 3), rv(rng, 1, 6, 3)
+            if l1 == l2 and rng.random() < 0.6:
+                rs = rp
+            m2 = k * k * l1 * l2
+            if is_square((l1 * rs + l2 * rp) ** 2 - 4 * (l1 * l2 - m2) * rp * rs):
+                got = (l1, l2, k, rp, rs)
+                break
+        if got is None:
+            return None
+        l1, l2, k, rp, rs = got
+        sw_type = rng.choice(['no', 'nc'])
+        # post-switch series resistance of the L1 loop is rp: no -> R1 = 2 rp paralleled by R3 = 2 rp ; nc -> R1 = rp, R3 removed
+        if sw_type == 'no':
+            ra, rb = 2 * rp, 2 * rp
+        else:
+            ra, rb = rp, rv(rng)
+        lines = ['V1 1 0 dc %s' % fs(A), 'R1 1 2 %s' % fs(ra), 'SW1 1 4 %s 0' % sw_type, 'R3 4 2 %s' % fs(rb),
+                 'L1 2 0 %s' % fs(l1), 'L2 3 0 %s' % fs(l2), 'K1 L1 L2 %s' % fs(k), 'R2 3 0 %s' % fs(rs)]
+    elif shape == 'series-switch':
         re = rng.choice(['C', 'L'])
         lines += ['SW1 2 3 %s 0' % sw_type, '%s1 3 0 %s' % (re, fs(rv(rng))), 'R2 %s 0 %s' % (rng.choice(['2', '3']), fs(r2))]
         if rng.random() < 0.4:
@@ -639,10 +833,15 @@ def gen_switched_T(rng, shape=None):
     A = sv(rng)
     T = rng.choice([1, 1, 2])
     sw_type = rng.choice(['no', 'nc'])
-    shape = shape or rng.choice(['cap', 'ind', 'rlc'])
+    shape = shape or rng.choice(['cap', 'ind', 'rlc', 'spdt'])
     p = -Fraction(rng.choice([1, 2, 3, 4]), 2)
     r1, r2 = rv(rng), rv(rng)
-    if shape == 'cap':
+    if shape == 'spdt':
+        # change-over switch: the capacitor charges through R1 until T, then discharges through R2
+        sw_type = 'spdt'
+        c = (1 / r1) / (-p)
+        lines = ['V1 1 0 step %s' % fs(A), 'R1 1 2 %s' % fs(r1), 'SW1 3 2 4 spdt %d' % T, 'C1 3 0 %s' % fs(c), 'R2 4 0 %s' % fs(r2)]
+    elif shape == 'cap':
         g = (1 / r1 + 1 / r2) if sw_type == 'nc' else 1 / r1          # conductance seen by C before the switch operates
         c = g / (-p)
         lines = ['V1 1 0 step %s' % fs(A), 'R1 1 2 %s' % fs(r1), 'C1 2 0 %s' % fs(c), 'SW1 2 3 %s %d' % (sw_type, T), 'R2 3 0 %s' % fs(r2)]
@@ -665,15 +864,80 @@ def gen_switched_T(rng, shape=None):
             'poles': 'chosen', 'whole_axis': False}
 
 
+def gen_switched_2T(rng, shape=None):
+    """step-driven first-order circuit with TWO switches operated at different instants T1 < T2.  Every natural frequency
+    that can occur (also with the switches in any other combination of positions) is a multiple of 1/2 and the instants
+    are integers, so that all exponentials are covered by the exp stand-in."""
+    A = sv(rng)
+    T1 = rng.choice([1, 2])
+    T2 = T1 + rng.choice([1, 2])
+    shape = shape or rng.choice(['cap', 'ind'])
+    half = Fraction(1, 2)
+    if shape == 'cap':
+        # C sees R1 alone, then R1 || R2 (SW1 closes at T1), then R1 || R2 || R3 (SW2 closes at T2)
+        a0 = half * rng.choice([1, 2, 3])
+        d1 = half * rng.choice([1, 2, 3])
+        d2 = half * rng.choice([1, 2])
+        r1 = rv(rng)
+        c = (1 / r1) / a0
+        lines = ['V1 1 0 step %s' % fs(A), 'R1 1 2 %s' % fs(r1), 'C1 2 0 %s' % fs(c), 'SW1 2 3 no %d' % T1, 'R2 3 0 %s' % fs(1 / (c * d1)),
+                 'SW2 2 4 no %d' % T2, 'R3 4 0 %s' % fs(1 / (c * d2))]
+    else:
+        # L in series with R1 + R2 + R3; SW1 shorts R2 at T1, SW2 shorts R3 at T2
+        l = rng.choice([Fraction(1), Fraction(1, 2), Fraction(2)])
+        a1 = half * rng.choice([2, 3, 4])           # -pole of [T1, T2)
+        a0 = a1 + half * rng.choice([1, 2, 3])      # -pole of [0, T1)
+        r3 = half * l
+        lines = ['V1 1 0 step %s' % fs(A), 'R1 1 2 %s' % fs((a1 - half) * l), 'R2 2 3 %s' % fs((a0 - a1) * l), 'R3 3 4 %s' % fs(r3),
+                 'L1 4 0 %s' % fs(l), 'SW1 2 3 no %d' % T1, 'SW2 3 4 no %d' % T2]
+    return {'template': 'switched-2T:%s' % shape, 'switched': lines, 'T1': T1, 'T2': T2, 'waves': ['step'], 'poles': 'chosen', 'whole_axis': False}
+
+
 def switch_line(l, closed):
     w = l.split()
     return ('W %s %s' % (w[1], w[2])) if closed else ('O %s %s' % (w[1], w[2]))
+
+
+def sw_lines(l, operated):
+    """model / Lcapy lines of a switch in its initial (operated = False) or operated position:
+    `SWx a b no T` open -> closed, `SWx a b nc T` closed -> open, `SWx c a b spdt T` common c: wired to a -> wired to b"""
+    w = l.split()
+    if w[4] == 'spdt':
+        return ['W %s %s' % (w[1], w[3] if operated else w[2])]
+    closed = operated if w[3] == 'no' else (not operated)
+    return [switch_line(l, closed)]
+
+
+def sw_time(l):
+    w = l.split()
+    return Fraction(w[5] if w[4] == 'spdt' else w[4])
+
+
+def strip_converted(ivp):
+    """text of a circuit returned by convert_IVP: one line per component; the schematic-only copy of an spdt switch
+    (`nosim`) is dropped and drawing options after `;` are removed"""
+    out = []
+    for x in str(ivp).split('\n'):
+        x = x.strip()
+        if not x or 'nosim' in x:
+            continue
+        out.append(x.split(';')[0].strip())
+    return out
 
 
 def gen_case(rng):
     if rng.random() < 0.12:
         return gen_switched_T(rng) if rng.random() < 0.4 else gen_switched(rng)
     ic = rng.random() < 0.45
+    if rng.random() < 0.10:
+        B.symbolic = False
+        if rng.random() < 0.5:
+            c = gen_impulsive(rng, ic)
+        else:
+            c = gen_directed(rng, ic, CAUSAL_KINDS)
+        if c is not None:
+            c['whole_axis'] = False
+        return c
     B.symbolic = rng.random() < 0.25
     whole = (not ic) and rng.random() < 0.2
     kinds = WHOLE_KINDS if whole else CAUSAL_KINDS
@@ -703,7 +967,7 @@ def gen_case(rng):
 # --------------------------------------------------------------------------- the check
 
 def run(chk, replay=None):
-    broken = chk.lean(['Lcapy/Props/C02.lean'], helper_files=HELPERS, leanchecker=(chk.tier == 'thorough'))
+    broken = chk.lean(['Lcapy/Props/C02.lean', 'Lcapy/Props/C02Inj.lean'], helper_files=HELPERS, leanchecker=(chk.tier == 'thorough'))
     chk.coverage['trusted_base'] = chk.coverage['trusted_base'] + [
         'the harness canonicaliser c02.TCanon / c10.Canon (SymPy time-domain expression -> formal signal items; a term without '
         'Heaviside factor in a result without the t >= 0 condition is read as valid on the whole time axis)',
@@ -728,7 +992,7 @@ def run(chk, replay=None):
     state.current_sign_convention = 'passive'
 
     ncases = 100 if quick else 900
-    budget = 105 if quick else 1000          # seconds for the generated cases
+    budget = 135 if quick else 1050          # seconds for the generated cases
     chk.coverage['rule'] = ('each case = netlist x source waveforms x initial conditions: templates random-1-reactive / random-2-reactive '
                             '(gen_netlist with R,C,L,V,I,E,G,F,H,TF), series / parallel RLC with chosen poles (real, complex-conjugate over the '
                             'Gaussian rationals, repeated), repeated complex-conjugate natural frequencies (identical RLC sections through a buffer; RLC driven at '
@@ -776,13 +1040,21 @@ def run(chk, replay=None):
             sigs['V %s' % n] = conv('V %s' % n, cct[n].v)
         for nm in cct.elements:
             ty = ctype(nm)
-            if ty in ('K', 'W', 'O', 'P'):
+            if ty in ('K', 'W', 'O', 'P') or nm.startswith('SW'):
                 continue
             el = cct.elements[nm]
             if ty in BRANCH_TYPES:
                 i = conv('I %s' % nm, el.i)
                 rep['I %s' % nm] = i
                 sigs['J %s' % nm] = i
+                if ty == 'GY':
+                    # the input-branch current `GY1X` is not exposed by Lcapy: it is DEFINED here by the gyrator relation
+                    # V(n1,n2) = -r i_X from Lcapy's node voltages (so that relation is not a test), and then checked by
+                    # Kirchhoff's current law at the input-port nodes
+                    w = [l for l in case['lines'] if l.split(' ')[0] == nm][0].split(' ')
+                    rr = Fraction(w[5].strip('{}'))
+                    vv = lambda n: (cct[n].v.sympy if n != '0' else S.S.Zero)
+                    sigs['J %sX' % nm] = conv('I %sX' % nm, -(vv(w[1]) - vv(w[2])) / S.Rational(rr.numerator, rr.denominator))
             else:
                 # reported quantities that are not unknowns of the laws: an error or a shape that is not understood
                 # only removes that quantity from the comparison (Lcapy has no current for G and F components)
@@ -923,6 +1195,16 @@ def run(chk, replay=None):
                 'Lcapy time-domain response violates %s' % ('KCL at node %s' % w[1] if clause == 'kcl' else 'the law of %s' % w[1]))
         else:
             chk.count('oracle', 'laws-ok')
+        # LawsTFormal was DECIDED (ok or violated) by the Lean driver on this case: per family and per source waveform
+        chk.count('laws-decided-by-family', case['template'].split(':')[0])
+        for wv in case['waves']:
+            chk.count('laws-decided-by-waveform', wv)
+        for ty in sorted({ctype(l.split()[0]) for l in case['lines']} & {'GY', 'TR', 'AM', 'TF', 'K', 'E', 'G', 'F', 'H'}):
+            chk.count('laws-decided-by-component', ty)
+        if any(' dl ' in (' ' + sig_tokens(sg) + ' ') for sg in sigs.values()):
+            chk.count('laws-decided-by-family', 'response-contains-impulse')
+        if any(any(it.startswith('ep ') and it.split(' ')[4] != '0' for it in sg['post']) for sg in sigs.values()):
+            chk.count('laws-decided-by-family', 'response-contains-delayed-term')
         last[0] = (sigs, assign, v == 'ok')
         # ---- oracle 2: the laws on the pre-history (whole-axis results)
         if has_pre and not guarded:
@@ -996,9 +1278,8 @@ def run(chk, replay=None):
         pre, post = [], []
         for l in case['switched']:
             if l.startswith('SW'):
-                was_closed = l.split()[3] == 'nc'
-                pre.append(switch_line(l, was_closed))
-                post.append(switch_line(l, not was_closed))
+                pre += sw_lines(l, False)
+                post += sw_lines(l, True)
             else:
                 pre.append(l)
                 post.append(l)
@@ -1031,7 +1312,7 @@ def run(chk, replay=None):
         try:
             with common.time_limit(30):
                 ivp = Circuit('\n'.join(case['switched'])).convert_IVP(0)
-                ltxt = [x.strip() for x in str(ivp).split('\n') if x.strip()]
+                ltxt = strip_converted(ivp)
         except common.TimeLimit:
             chk.count('degenerate', 'switched:time-limit')
             return None
@@ -1081,10 +1362,9 @@ def run(chk, replay=None):
         for l in case['switched']:
             w = l.split()
             if l.startswith('SW'):
-                was_closed = w[3] == 'nc'
-                pre_m.append(switch_line(l, was_closed))
-                pre_l.append(switch_line(l, was_closed))
-                post_m.append(switch_line(l, not was_closed))
+                pre_m += sw_lines(l, False)
+                pre_l += sw_lines(l, False)
+                post_m += sw_lines(l, True)
             elif l.startswith('V'):
                 a = fstr(Fraction(w[4].strip('{}')))
                 pre_m.append('%s %s %s sig ep %s 0 0 0' % (w[0], w[1], w[2], a))
@@ -1116,7 +1396,7 @@ def run(chk, replay=None):
             try:
                 with common.time_limit(30):
                     ivp = Circuit('\n'.join(case['switched'])).convert_IVP(sel)
-                    ltxt = [x.strip() for x in str(ivp).split('\n') if x.strip()]
+                    ltxt = strip_converted(ivp)
             except common.TimeLimit:
                 chk.count('degenerate', 'switched-T:time-limit')
                 return
@@ -1160,11 +1440,132 @@ def run(chk, replay=None):
         case_post.update({'lines': lines, 'lcapy': texts[sel], 'has_ic': True, 'subs': {}, 'selection_time': sel})
         one(case_post, idx, smp)
 
+
+    def resolve_switched_2T(case, idx):
+        """two switches operated at T1 < T2 in a step-driven circuit (zero state at t = 0).
+        The state at each switching instant is computed by the Lean spec function `evalAt` from responses that passed the
+        Lean time-domain laws (and are THE responses, `C02.response_unique`):
+          interval [0,T1): both switches initial, zero state                         -> state at T1
+          interval [T1,T2): first switch operated, started from the state at T1      -> state at T2 (time origin T1)
+        `convert_IVP(T1)`, `convert_IVP(T2)`, `convert_IVP(T2+1)` must write those states as initial conditions and put every
+        switch that has operated by then in its operated position (and only those)."""
+        T1, T2 = case['T1'], case['T2']
+        smp = Sampler(rng, S)
+        sw = [l for l in case['switched'] if l.startswith('SW')]
+        first = [l.split()[0] for l in sw if sw_time(l) == T1]
+
+        def build(operated, src_on, state):
+            m, lc = [], []
+            for l in case['switched']:
+                w = l.split()
+                if l.startswith('SW'):
+                    m += sw_lines(l, w[0] in operated)
+                    lc += sw_lines(l, w[0] in operated)
+                elif l.startswith('V'):
+                    a = fstr(Fraction(w[4].strip('{}')))
+                    m.append('%s %s %s sig %sep %s 0 0 0' % (w[0], w[1], w[2], ('pre %s 0 0 ' % a) if src_on else '', a))
+                    lc.append(l)
+                elif w[0] in state:
+                    m.append('%s %s' % (l, fs(state[w[0]][0])))
+                    lc.append('%s %s' % (l, fs(state[w[0]][0])))
+                else:
+                    m.append(l)
+                    lc.append(l)
+            return m, lc
+
+        def state_at(m_lines, tau):
+            if last[0] is None or not last[0][2]:
+                return None
+            rep = drv.ask1('td.evalat %s %s || %s || %s' % (smp.env_tokens(), fstr(Fraction(tau)), ' || '.join(m_lines), last[0][1]))
+            want = {}
+            if rep.startswith('ok'):
+                for tok in rep.split(' ')[1:]:
+                    nm, val = tok.split('=')
+                    want[nm] = c09.parse_val(val)
+            if not want or any(v is None or v[1] != 0 for v in want.values()):
+                return None
+            return want
+
+        base = case['template'].split(':')[0]
+        m0, l0 = build(set(), False, {})
+        one({'template': base + ':interval-0', 'lines': m0, 'lcapy': l0, 'has_ic': False, 'waves': ['step'], 'poles': 'chosen',
+             'whole_axis': False, 'subs': {}}, idx, smp)
+        st1 = state_at(m0, T1)
+        if st1 is None:
+            chk.count('degenerate', 'switched-2T:state-1-unavailable')
+            return
+        m1, l1 = build(set(first), True, st1)
+        one({'template': base + ':interval-1', 'lines': m1, 'lcapy': l1, 'has_ic': True, 'waves': ['step'], 'poles': 'chosen',
+             'whole_axis': False, 'subs': {}}, idx, smp)
+        st2 = state_at(m1, T2 - T1)
+        if st2 is None:
+            chk.count('degenerate', 'switched-2T:state-2-unavailable')
+            return
+        allsw = set(l.split()[0] for l in sw)
+        all_ok = True
+        final_txt = None
+        for sel, want, operated, instant in ((T1, st1, set(first), 'first'), (T2, st2, allsw, 'second'), (T2 + 1, st2, allsw, 'second')):
+            try:
+                with common.time_limit(40):
+                    ltxt = strip_converted(Circuit('\n'.join(case['switched'])).convert_IVP(sel))
+            except common.TimeLimit:
+                chk.count('degenerate', 'switched-2T:time-limit')
+                return
+            except Exception as ex:   # noqa
+                chk.count('degenerate', 'switched-2T:convert_IVP-' + type(ex).__name__)
+                return
+            if sel == T2:
+                final_txt = ltxt
+            rp = {'input': {'case': {k: case[k] for k in ('template', 'switched', 'T1', 'T2', 'waves', 'poles', 'whole_axis')}},
+                  'selection_time': sel, 'lcapy': ltxt}
+            # switch positions
+            exp_pos = sorted(x for l in sw for x in sw_lines(l, l.split()[0] in operated))
+            got_pos = sorted(' '.join(l.split()[:3]) for l in ltxt if l.split()[0] in ('W', 'O'))
+            if exp_pos != got_pos:
+                all_ok = False
+                ncex[0] += 1
+                chk.counterexample({'template': base, 'kind': 'switch-position', 'instant': instant, 'switched': True},
+                                   dict(rp, spec='switches operated by t = %s: %s' % (sel, ' ; '.join(exp_pos))),
+                                   'convert_IVP(%s) leaves the switches as %s; by then they are %s' % (sel, ' ; '.join(got_pos), ' ; '.join(exp_pos)))
+            else:
+                chk.count('oracle', 'switch-position-2T-ok:' + instant)
+            for l in ltxt:
+                mm = ic_pat.match(l)
+                if not mm or mm.group(1) not in want:
+                    continue
+                nm = mm.group(1)
+                ictxt = (mm.group(5) or '0').strip('{}')
+                try:
+                    gv = smp.value(S.sympify(ictxt, rational=True), S.Symbol('unused_s'), {})
+                except Exception:   # noqa
+                    gv = None
+                if gv is None:
+                    chk.count('degenerate', 'switched-2T:ic-not-evaluated')
+                    continue
+                if gv != want[nm]:
+                    all_ok = False
+                    ncex[0] += 1
+                    chk.counterexample({'template': base, 'kind': 'state-handover', 'cpt': nm[0], 'instant': instant, 'switched': True},
+                                       dict(rp, spec='%s at the %s switching instant = %s under the exponential stand-in (evalAt of the verified '
+                                                     'response of the preceding interval); convert_IVP(%s) wrote %s = %s'
+                                                     % (nm, instant, fstr(want[nm][0]), sel, ictxt, fstr(gv[0]))),
+                                       'convert_IVP(%s) starts %s from %s, not from the solution of the preceding interval at the %s switching instant'
+                                       % (sel, nm, ictxt, instant))
+                else:
+                    chk.count('oracle', 'state-handover-2T-ok:' + instant)
+        if all_ok and final_txt:
+            m2, _ = build(allsw, True, st2)
+            one({'template': base + ':interval-2', 'lines': m2, 'lcapy': final_txt, 'has_ic': True, 'waves': ['step'], 'poles': 'chosen',
+                 'whole_axis': False, 'subs': {}}, idx, smp)
+
     t0 = time.time()
     if replay:
         rp = json.load(open(replay if os.path.isabs(replay) else os.path.join(common.VERIF, replay)))
         case = rp.get('input', {}).get('case')
-        if case and 'T' in case and 'switched' in case:
+        if case and 'T2' in case and 'switched' in case:
+            chk.coverage['replayed'] = case['switched']
+            resolve_switched_2T({k: v for k, v in case.items() if k not in ('lines', 'lcapy', 'has_ic', 'selection_time')}, 0)
+        elif case and 'T' in case and 'switched' in case:
             chk.coverage['replayed'] = case['switched']
             resolve_switched_T({k: v for k, v in case.items() if k not in ('lines', 'lcapy', 'has_ic', 'selection_time')}, 0)
         elif case:
@@ -1182,21 +1583,49 @@ def run(chk, replay=None):
                     one(json.load(open(os.path.join(corpus_dir, fn)))['case'], idx)
                     idx += 1
         n_rc = 6 if quick else 60          # every run starts with the repeated complex-conjugate family (all variants)
-        n_swt = 3 if quick else 45         # ... then switches operated at T > 0 on a pre-switch response that is still moving
+        n_swt = 4 if quick else 48         # ... then switches operated at T > 0 on a pre-switch response that is still moving
+        n_sw0 = 2 if quick else 24         # ... dc circuits switched at t = 0 with a change-over switch / coupled inductors
+        n_sw2 = 1 if quick else 10         # ... two switches at different instants
+        n_imp = 5 if quick else 50         # ... responses that contain an impulse (capacitor loop / inductor cut-set)
+        n_dir = 4 if quick else 40         # ... gyrator, voltage transformer, ammeter
+        n_swp = len(SWEEP_KINDS) if quick else 3 * len(SWEEP_KINDS)     # ... every source waveform kind at least once
         rc_variants = ['cascade', 'resonant', 'resonant-parallel', 'resonant', 'cascade', 'resonant']
-        for k in range(ncases):
+        imp_shapes = ['cap-divider', 'ind-cutset', 'cap-across-source', 'cap-loop-ic', 'ind-series-source']
+        dir_shapes = ['gyrator-C', 'tr-am', 'gyrator-RLC', 'am-series']
+        marks = [n_rc]
+        for n in (n_swt, n_sw0, n_sw2, n_imp, n_dir, n_swp):
+            marks.append(marks[-1] + n)
+        for k in range(ncases + marks[-1] - n_rc - (3 if quick else 45)):
             if time.time() - t0 > budget:
                 chk.coverage['stopped_on_budget_after'] = idx
                 break
-            if k < n_rc:
+            if k < marks[0]:
                 B.symbolic = False
                 ic_k = (k % 4 == 3)
                 case = gen_repeated_complex(rng, ic_k, CAUSAL_KINDS, rc_variants[k % len(rc_variants)])
                 case['whole_axis'] = False
-            elif k < n_rc + n_swt:
-                case = gen_switched_T(rng, ['cap', 'ind', 'rlc'][(k - n_rc) % 3])
+            elif k < marks[1]:
+                case = gen_switched_T(rng, ['cap', 'ind', 'rlc', 'spdt'][(k - marks[0]) % 4])
+            elif k < marks[2]:
+                case = gen_switched(rng, ['spdt', 'coupled'][(k - marks[1]) % 2])
+            elif k < marks[3]:
+                case = gen_switched_2T(rng, ['cap', 'ind'][(k - marks[2] + chk.seed) % 2])
+            elif k < marks[4]:
+                B.symbolic = False
+                case = gen_impulsive(rng, (k - marks[3]) % 3 == 2, imp_shapes[(k - marks[3]) % len(imp_shapes)])
+                case['whole_axis'] = False
+            elif k < marks[5]:
+                B.symbolic = False
+                case = gen_directed(rng, (k - marks[4]) % 4 == 3, CAUSAL_KINDS, dir_shapes[(k - marks[4]) % len(dir_shapes)])
+                case['whole_axis'] = False
+            elif k < marks[6]:
+                case = gen_sweep(rng, SWEEP_KINDS[(k - marks[5]) % len(SWEEP_KINDS)], k - marks[5])
             else:
                 case = gen_case(rng)
+            if case is not None and 'T2' in case:
+                resolve_switched_2T(case, idx)
+                idx += 1
+                continue
             if case is not None and 'T' in case:
                 resolve_switched_T(case, idx)
                 idx += 1
